@@ -8,6 +8,13 @@ namespace Rrss
 /-- Texts are lists of Unicode scalar values (Rust `char` = Lean `Char`). -/
 abbrev Str := List Char
 
+open Lean in
+/-- `str% "abc"` elaborates to the explicit list `['a', 'b', 'c']` (string literals and
+    `String.toList` do not reduce in the kernel, explicit lists do). -/
+macro:max "str%" s:str : term => do
+  let elems := s.getString.toList.toArray.map fun c => (Syntax.mkCharLit c : TSyntax `term)
+  `(([$elems,*] : List Char))
+
 /-- UTF-8 length in bytes (how `CharIndices` numbers offsets). -/
 def ulen : Str → Nat
   | [] => 0
